@@ -6,7 +6,7 @@ index (incl. overwrite / delete sequences, commit, close, reopen); listings
 written with metadata and parsed back given the hash name.
 """
 
-CASE_TIMEOUT = 120  # seconds per pool task (the unchanged tree needs a small fraction of this)
+CASE_TIMEOUT = 600  # seconds per pool task (the unchanged tree needs a small fraction of this)
 
 import itertools
 import json
@@ -244,6 +244,15 @@ def check_forms(triple, keys, w, tag):
     p = w.p(f"{tag}.db")
     write_db(idx, p)
     cmp("db", read_db(p))
+    # the same database path written again: first other values under the same keys, then the real ones
+    other = DataIndex({k: _E(key=k, meta=_Meta(size=991)) for k in keys})
+    p2 = w.p(f"{tag}.2.db")
+    write_db(other, p2)
+    write_db(DataIndex(build_entries(triple, keys)), p2)
+    try:
+        cmp("db-overwrite", read_db(p2))
+    except Exception as e:  # noqa: BLE001
+        viol.append((f"db-overwrite-read-raises-{type(e).__name__}", repr(e)[:200]))
     # SQLite-backed index, also with the root key
     p = w.p(f"{tag}.sqlite")
     sq = DataIndex.open(p)
@@ -340,6 +349,14 @@ def run_seq(seq, w, tag):
         wantp = {k: proj_entry(e) for k, e in work.items()}
         if got != wantp:
             viol.append((f"sqlite-sequence-{where}-differs", f"after {seq}: want {wantp} got {got}"))
+        for k in SEQ_KEYS:
+            # a key without an entry has none for a direct lookup either
+            if k not in work:
+                try:
+                    e = idx[k]
+                    viol.append((f"sqlite-sequence-{where}-lookup-of-absent-key-answers", f"after {seq}: {k} -> {proj_entry(e)}"))
+                except KeyError:
+                    pass
 
     for op in seq:
         steps += 1
@@ -411,6 +428,115 @@ def run_seqs(case):
             if n % 200 == 0:
                 for f in os.listdir(w.root):
                     os.unlink(w.p(f))
+    res["outcomes"] = [len(res["viol"])]
+    res["nontrivial"] = sorted(res["nontrivial"])
+    return res
+
+
+# ---- two SQLite-backed indexes of one process holding the same keys -------------------------------
+
+TWO_KEYS = [(), ("a",)]
+
+
+def two_ops():
+    ops = []
+    for f in (0, 1):
+        for ki in range(len(TWO_KEYS)):
+            for ei in (0, 1):
+                ops.append(("set", f, ki, ei))
+            ops.append(("del", f, ki))
+        ops.append(("commit", f))
+        ops.append(("reopen", f))
+    return ops
+
+
+def run_two(seq, w, tag):
+    from dvc_data.index import DataIndex, DataIndexEntry
+
+    viol = []
+    paths = [w.p(f"{tag}.A.sqlite"), w.p(f"{tag}.B.sqlite")]
+    idx = [DataIndex.open(paths[0]), DataIndex.open(paths[1])]
+    work = [{}, {}]
+
+    def mk(f, ki, ei):
+        md, h, ld = SEQ_ENTRIES[ei]
+        full = None
+        if md is not None:
+            full = {n: AXES[n][0] for n in AXES}
+            full.update(md)
+            full["size"] = (full.get("size") or 0) + 100 * f   # the two files never hold equal entries
+        return DataIndexEntry(key=TWO_KEYS[ki], meta=mk_meta(full), hash_info=mk_hi(h), loaded=ld)
+
+    def compare(where):
+        for f in (0, 1):
+            got = {k: proj_entry(idx[f][k]) for k in idx[f]}
+            wantp = {k: proj_entry(e) for k, e in work[f].items()}
+            if got != wantp:
+                viol.append((f"two-sqlite-indexes-{where}-differs", f"file {'AB'[f]} after {seq}: want {wantp} got {got}"))
+            for k in TWO_KEYS:
+                if k not in work[f]:
+                    try:
+                        e = idx[f][k]
+                        viol.append((f"two-sqlite-indexes-{where}-lookup-of-absent-key-answers",
+                                     f"file {'AB'[f]} after {seq}: {k} -> {proj_entry(e)}"))
+                    except KeyError:
+                        pass
+
+    for op in seq:
+        f = op[1]
+        if op[0] == "set":
+            e = mk(f, op[2], op[3])
+            idx[f][TWO_KEYS[op[2]]] = e
+            work[f][TWO_KEYS[op[2]]] = e
+        elif op[0] == "del":
+            k = TWO_KEYS[op[2]]
+            if k not in work[f]:
+                continue
+            del idx[f][k]
+            del work[f][k]
+        elif op[0] == "commit":
+            idx[f].commit()
+        elif op[0] == "reopen":
+            idx[f].commit()
+            idx[f].close()
+            idx[f] = DataIndex.open(paths[f])
+        compare("live" if op[0] != "reopen" else "reopened")
+    for f in (0, 1):
+        idx[f].commit()
+        idx[f].close()
+    idx = [DataIndex.open(paths[0]), DataIndex.open(paths[1])]
+    compare("final-reopen")
+    for f in (0, 1):
+        idx[f].close()
+    return viol
+
+
+def run_twos(case):
+    res = {"n": 0, "trans": 0, "states": [], "outcomes": set(), "nontrivial": set(), "viol": [],
+           "vac": {"two_index_sequences": 0}}
+    ops = two_ops()
+    sigs = set()
+    first = ops[case["first"]]
+    with World() as w:
+        n = 0
+        for rest in itertools.product(ops, repeat=case["depth"] - 1):
+            seq = (first, *rest)
+            n += 1
+            viol = run_two(seq, w, f"t{n}")
+            res["n"] += 1
+            res["trans"] += len(seq)
+            d = digest_obj(("two", seq))
+            res["states"].append(d)
+            if len({o[1] for o in seq}) > 1:
+                res["vac"]["two_index_sequences"] += 1
+                res["nontrivial"].add(d)
+            for sig, detail in viol:
+                if sig not in sigs:
+                    sigs.add(sig)
+                    res["viol"].append((sig, detail, {"kind": "two", "seq": [list(o) for o in seq]}))
+            if n % 100 == 0:
+                for fn in os.listdir(w.root):
+                    os.unlink(w.p(fn))
     res["outcomes"] = [len(res["viol"])]
     res["nontrivial"] = sorted(res["nontrivial"])
     return res
@@ -535,7 +661,7 @@ def run_bulk(case):
 
 def run_case(case):
     return {"dicts": run_dicts, "forms": run_forms, "seqs": run_seqs, "listings": run_listings,
-            "bulk": run_bulk}[case["part"]](case)
+            "bulk": run_bulk, "twos": run_twos}[case["part"]](case)
 
 
 def replay(case):
@@ -551,6 +677,9 @@ def replay(case):
     if k == "seq":
         with World() as w:
             return run_seq(tuple(tuple(o) for o in case["seq"]), w, "r")[0]
+    if k == "two":
+        with World() as w:
+            return run_two(tuple(tuple(o) for o in case["seq"]), w, "r")
     if k == "listing":
         return check_listing(case["hash_name"], case["metas"], case["store"])
     if k == "bulk":
@@ -565,7 +694,9 @@ def run(ctx):
         "trips; covering (thorough: + all pairs of) field variants in 3-entry indexes with non-ASCII and "
         "nested keys through JSON, key-value db and SQLite (incl. root key; commit, close, reopen); all "
         f"set/overwrite/delete/commit/reopen sequences of length {depth} on a SQLite-backed index vs a "
-        "dict model; listings with metadata for hash names md5, md5-dos2unix, etag, checksum; "
+        "dict model (a key without an entry must not answer a direct lookup either); the same with two SQLite-backed "
+        f"indexes of one process holding the same keys ({len(two_ops())} operations, every sequence of that length); a "
+        "key-value database written twice under the same keys; listings with metadata for hash names md5, md5-dos2unix, etag, checksum; "
         "non-trivial = >= 2 non-default fields / overwrite present"
     )
     ctx.bound = {"meta_axes": {k: [repr(x) for x in v] for k, v in AXES.items()},
@@ -577,10 +708,12 @@ def run(ctx):
         "in a listing with metadata the metadata field named like the hash is owned by the hash",
         "SQLite rollback is not part of the claimed round trip (commit, close, reopen)",
     ]
-    ctx.require("falsy_non_none_fields", "nonascii_keys", "root_key_sqlite", "overwrites", "listings", "bulk_forms")
+    ctx.require("falsy_non_none_fields", "nonascii_keys", "root_key_sqlite", "overwrites", "listings", "bulk_forms",
+                "two_index_sequences")
     cs = [{"part": "dicts", "slice": [i, 16]} for i in range(16)]
     cs += [{"part": "forms", "tier": ctx.tier, "slice": [i, 16]} for i in range(16)]
     cs += [{"part": "seqs", "depth": depth, "first": i} for i in range(len(seq_ops()))]
+    cs += [{"part": "twos", "depth": depth, "first": i} for i in range(len(two_ops()))]
     cs += [{"part": "listings", "tier": ctx.tier}]
     cs += [{"part": "bulk"}]
     ctx.run_cases("run_case", cs, chunksize=1, det=2)
